@@ -691,6 +691,10 @@ func (c *Compiler) compileAssign(
 		if !exists {
 			return c.errorf(node, "unresolved reference '%s'", ident)
 		}
+		if symbol.Scope == ScopeBuiltin {
+			return c.errorf(node,
+				"cannot assign to builtin function '%s'", ident)
+		}
 	}
 
 	// +=, -=, *=, /=
